@@ -110,7 +110,7 @@ def single(ctx, nel=1, N=3, bcs=((None, None),), order=None):
     ctx.prove("profile handed in is not modified", ctx.all([ctx.eq(x[e, i], x0[e][i]) for e in range(nel) for i in range(N)]))
 
 
-def homog(ctx, nel=1, N=3, bcs=((None, None),), order=None):
+def homog(ctx, nel=1, N=3, bcs=((None, None),), order=None, ref2=False):
     """homogenization model: fluxes in the volume-fixed frame, BCs, telescoping"""
     m, dz, x, vals = mk_model(ctx, HomogenizationModel, nel, N, bcs, order)
     for i in range(N):
@@ -143,6 +143,22 @@ def homog(ctx, nel=1, N=3, bcs=((None, None),), order=None):
         _hmod.computeHomogenizationFunction = old
     ctx.observe("J", J)
     ctx.prove("flux array has one row per independent component and one column per face", np.shape(J) == (nel, N + 1))
+    # independent reference for the interior faces: J_k = -M_k dmu_k/dz - eps M_k R T (du_k/dz)/u_k for every component (reference element
+    # included), mobility at the face = geometric mean of the node values, then the volume-fixed frame J^v_e = J_e - u_e * sum_k J_k
+    from kawin.Constants import GAS_CONSTANT
+    if np.shape(J) == (nel, N + 1) and (nel == 1 or ref2):
+        Tm = m.temperatureParameters.Tparameters
+        for i in range(1, N):
+            xf = [[1 - sum(x0[e][n_] for e in range(nel)) for n_ in (i - 1, i)]] + [[x0[e][i - 1], x0[e][i]] for e in range(nel)]
+            Jk = []
+            for k in range(nel + 1):
+                Mmid = np.exp(0.5 * (np.log(mob[i, k]) + np.log(mob[i - 1, k])))
+                uavg = 0.5 * (xf[k][0] + xf[k][1])
+                Jk.append(-Mmid * (mu[i, k] - mu[i - 1, k]) / dz - eps * Mmid * GAS_CONSTANT * Tm * ((xf[k][1] - xf[k][0]) / dz) / uavg)
+            tot = sum(Jk)
+            for e in range(nel):
+                uavg = 0.5 * (xf[e + 1][0] + xf[e + 1][1])
+                ctx.prove("interior face flux is the homogenization flux in the volume-fixed frame (reference formula)", ctx.eq(J[e, i], Jk[e + 1] - uavg * tot))
     ctx.prove("backend sees the profile node by node", np.shape(seen["x"]) == (N, nel) and ctx.all([ctx.eq(seen["x"][i, e], x0[e][i]) for i in range(N) for e in range(nel)]))
     check_bcs(ctx, m, nel, N, bcs, vals, J, d, dz)
     for e in range(nel):
@@ -283,7 +299,8 @@ HARNESSES = [
                     "thorough": [{"nel": 1, "N": 5, "bcs": b} for b in B1] + [{"nel": 2, "N": 4, "bcs": b, "order": o} for b in B2 for o in ([0, 1], [1, 0])] + [{"nel": 3, "N": 3, "bcs": ((COMP, FLUX), (None, None), (FLUX, COMP)), "order": [2, 0, 1]}]}),
     Harness("C04.homog", homog, functions=_F, assumptions=_A, stubs=_S, bounds={"solutes": "nel", "nodes": "N"}, opts={"ob_timeout": 40.0},
             params={"quick": [{"nel": 1, "N": 3, "bcs": b} for b in B1[:3]] + [{"nel": 2, "N": 3, "bcs": B2[1]}, {"nel": 2, "N": 2, "bcs": B2[0], "order": [1, 0]}],
-                    "thorough": [{"nel": 1, "N": 4, "bcs": b} for b in B1] + [{"nel": 2, "N": 3, "bcs": b, "order": o} for b in B2 for o in ([0, 1], [1, 0])]}),
+                    "thorough": [{"nel": 1, "N": 4, "bcs": b} for b in B1] + [{"nel": 2, "N": 3, "bcs": b, "order": o} for b in B2 for o in ([0, 1], [1, 0])] +
+                                [{"nel": 2, "N": 2, "bcs": B2[0], "ref2": True, "_opts": {"ob_timeout": 200.0}}]}),
     Harness("C04.step", step, functions=_F + [DESolver._updateX, DESolver._getdXdt], assumptions=_A + ["clip of postProcess inactive (the step itself is examined)"], stubs=_S,
             opts={"ob_timeout": 60.0}, budget={"quick": 150.0, "thorough": 1500.0},
             params={"quick": [{"model": "single", "kind_": "euler", "nel": 1, "N": 3, "bcs": B1[0]}, {"model": "single", "kind_": "rk4", "nel": 1, "N": 3, "bcs": B1[2]},
